@@ -3,7 +3,8 @@
    up) are GENERATED into Gen/XmlFmt.v on every run and tied to the real writer / reader by the
    correspondence relations of Corr/C01.v. *)
 From Coq Require Import QArith Qabs ZArith String List Bool.
-From CR Require Import Model.Codec Model.DecStr Gen.XmlFmt Proofs.Codec Proofs.DecStr Proofs.XmlFmt.
+From CR Require Import Model.Codec Model.DecStr Model.WriterPrec Gen.XmlFmt Proofs.Codec Proofs.DecStr Proofs.XmlFmt
+  Proofs.WriterPrec.
 Import ListNotations.
 Open Scope string_scope.
 Open Scope list_scope.
@@ -58,6 +59,31 @@ Theorem C01_float_to_str_error : forall d x, digits_ok (fp x) = true ->
   (Qabs (dval (float_to_str d x) - dval x) < 1 / pow10 d)%Q.
 Proof. exact float_to_str_error. Qed.
 
+(* "d being the writer's decimal precision", in a process where any number of writers exist: after ANY history h of
+   constructions and writes of any writers (XML or protobuf, any precisions) from ANY world s0, a write of writer w by
+   EITHER write method is built with the precision d of w's latest construction and leaves the global at d ... *)
+Theorem C01_write_uses_own_precision : forall s0 h w d a,
+  latest w h = Some (KXml, d) ->
+  let r := exec (run s0 h) (Write w a) in snd r = OWrote d /\ glob (fst r) = d.
+Proof. exact write_uses_own_precision. Qed.
+(* ... so every numeric leaf of that file is within 10^-d of the number str(x) denotes *)
+Theorem C01_write_leaf_error : forall s0 h w d a x t,
+  latest w h = Some (KXml, d) -> digits_ok (fp x) = true ->
+  leaf (snd (exec (run s0 h) (Write w a))) x = Some t ->
+  (Qabs (dval t - dval x) < 1 / pow10 d)%Q.
+Proof. exact write_leaf_error. Qed.
+Theorem C01_write_history_independent : forall s0 s0' h h' w d a,
+  latest w h = Some (KXml, d) -> latest w h' = Some (KXml, d) ->
+  snd (exec (run s0 h) (Write w a)) = snd (exec (run s0' h') (Write w a)).
+Proof. exact write_history_independent. Qed.
+(* without the re-assertion statement in write_scenario_to_file (or in neither method = the code as found before
+   df37eef) a 9-decimal writer builds its file with the 2 decimals of a writer constructed after it *)
+Theorem C01_stale_precision_refuted :
+  trace_gen only_to_file (world0 4) h_stale = [(9, ONew); (2, ONew); (2, OWrote 2); (9, OWrote 9)]%nat /\
+  trace_gen as_found (world0 4) h_stale = [(9, ONew); (2, ONew); (2, OWrote 2); (2, OWrote 2)]%nat /\
+  trace (world0 4) h_stale = [(9, ONew); (2, ONew); (9, OWrote 9); (9, OWrote 9)]%nat.
+Proof. exact stale_precision_refuted. Qed.
+
 (* non-vacuity: a concrete rectangle value is written and read back by the generated tables *)
 Example C01_nonvacuous :
   let v := VRec [VAtom (ANum (2#1)); VAtom (ANum (1#1)); VSome (VAtom (ANum (1#2)));
@@ -75,4 +101,8 @@ Print Assumptions C01_virtual_refuted.
 Print Assumptions C01_shared_formats_partial.
 Print Assumptions C01_shared_roundtrip.
 Print Assumptions C01_float_to_str_error.
+Print Assumptions C01_write_uses_own_precision.
+Print Assumptions C01_write_leaf_error.
+Print Assumptions C01_write_history_independent.
+Print Assumptions C01_stale_precision_refuted.
 Print Assumptions C01_nonvacuous.
